@@ -39,6 +39,19 @@ def outcome(fn, *a, **k):
     except Exception as e:          # noqa: the class name is the observation
         return ('raise', type(e).__name__)
 
+def zero_edge_inputs(call, gen, want=2, tries=1500):
+    """INPUT SELECTION (not an oracle): inputs for which the real code's output starts or ends with a zero byte - the class on
+    which 'integer -> bytes' conversions that drop leading zeros go wrong.  call(x) -> bytes; gen(i) -> candidate input."""
+    out = []
+    for i in range(tries):
+        x = gen(i)
+        try: r = call(x)
+        except Exception: continue
+        if isinstance(r, (bytes, bytearray)) and len(r) > 0 and (r[0] == 0 or r[-1] == 0):
+            out.append(x)
+            if len(out) >= want: break
+    return out
+
 # ----------------------------------------------------------------------------------------------
 class Findings:
     """known_findings.json: entries {property, api, symptom, when, what, status}.  'open' entries
